@@ -82,13 +82,16 @@ var (
 	// caller adaptation field with the private-data flag set and zero-length data, multi-packet payload
 	opDataApr0 = MOp{K: "data", PID: 0x100, Len: 350, AF: "priv0"}
 	opPktAF252 = MOp{K: "pkt", Pkt: "af252"}
-	opPktStAF  = MOp{K: "pkt", Pkt: "staleaf"}
-	opPktFitPr = MOp{K: "pkt", Pkt: "fitpriv"}
-	opPktBigPr = MOp{K: "pkt", Pkt: "bigpriv"}
-	opPktFitPE = MOp{K: "pkt", Pkt: "fitpcrext"}
-	opPktBigPE = MOp{K: "pkt", Pkt: "bigpcrext"}
-	opAddMany  = MOp{K: "addmany", N: 40}
-	opRmMany   = MOp{K: "rmmany", N: 40}
+	// WriteData with an adaptation field that cannot fit a packet at all (its length does not even fit 8 bits)
+	opDataAwrap = MOp{K: "data", PID: 0x100, Len: 50, AF: "priv254"}
+	opDataAbig  = MOp{K: "data", PID: 0x100, Len: 50, AF: "priv200"}
+	opPktStAF   = MOp{K: "pkt", Pkt: "staleaf"}
+	opPktFitPr  = MOp{K: "pkt", Pkt: "fitpriv"}
+	opPktBigPr  = MOp{K: "pkt", Pkt: "bigpriv"}
+	opPktFitPE  = MOp{K: "pkt", Pkt: "fitpcrext"}
+	opPktBigPE  = MOp{K: "pkt", Pkt: "bigpcrext"}
+	opAddMany   = MOp{K: "addmany", N: 40}
+	opRmMany    = MOp{K: "rmmany", N: 40}
 )
 
 var muxFullAlpha = []MOp{
@@ -100,7 +103,7 @@ var muxFullAlpha = []MOp{
 
 // caller-built packets at the size limit: exact fit and one byte too many for each way of filling the
 // adaptation field; a struct with a cleared flag and the part still attached
-var muxPktEdgeAlpha = []MOp{opPktStAF, opPktFitPr, opPktBigPr, opPktFitPE, opPktBigPE, opPktBig, opPktStale, opPktShort, opDataA1, opTables}
+var muxPktEdgeAlpha = []MOp{opDataAwrap, opDataAbig, opPktStAF, opPktFitPr, opPktBigPr, opPktFitPE, opPktBigPE, opPktBig, opPktStale, opPktShort, opDataA1, opTables}
 
 // A smaller alphabet for deeper searches.
 var muxCoreAlpha = []MOp{
